@@ -2403,13 +2403,22 @@ def run_c12(ctx) -> Corr:
 
 
 def older_types_history(rng, v_old: str, cross: bool, avoid_hb: bool, length: int):
-    """A history whose message types all exist in `v_old`; started with the version known."""
+    """A history whose message types all exist in `v_old`; started with the version known.
+
+    `cross` (the pair spans 1.x -> 2.x, where the property excludes references to unknown nodes / children): the
+    generator keeps an EXPECTATION of the registry (`reg`: node -> child keys) and draws senders, children and
+    addressees from it, so that the histories stay inside the property's domain for long.  Every way a node gets
+    into the registry is used: preloaded, presented by itself, and registered as a placeholder by the id-request
+    handler - a placeholder then sends (sketch name / version, battery, child presentations, set / req, streams, any
+    internal type) BEFORE its own presentation arrives.  The expectation only steers; what is inside the domain is
+    decided by the oracle from the real registry (`_c19_out_of_scope`)."""
     to = proto_tables(v_old)
     internal = [int(t) for t in to["internal"] if int(t) not in (2,)]  # no version reports: they would switch both gateways
     if avoid_hb:
         internal = [t for t in internal if t != 22]
     if cross:
         internal = [t for t in internal if t != 14]
+    id_request = _c19_internal_no(v_old, "I_ID_REQUEST")
     h = Hist(None, rng.random() < 0.5)
     nodes = (1, 2)
     for n in nodes:
@@ -2418,27 +2427,59 @@ def older_types_history(rng, v_old: str, cross: bool, avoid_hb: bool, length: in
             h.preload.append(("child", n, c, c, 6, "c"))
             if rng.random() < 0.5:
                 h.preload.append(("val", n, c, 0, "7"))
-    known_nodes = list(nodes)
+    reg = {n: {0, 1} for n in nodes}      # expected registry
+    fresh: list = []                       # ids handed out whose node has not presented itself yet
 
     def ack() -> int:        # a node may ask for an echo of anything it sends
         return 1 if rng.random() < 0.3 else 0
 
+    def handed_out() -> None:
+        new = max(reg) + 1 if reg else 1
+        if new <= 254:
+            reg[new] = set()
+            fresh.append(new)
+
+    def presented(n: int) -> None:   # a node presentation replaces the node: its children are gone
+        reg[n] = set()
+        if n in fresh:
+            fresh.remove(n)
+
     for _ in range(length):
         r = rng.random()
-        n = rng.choice(known_nodes if cross else known_nodes + [3])
-        c = rng.choice((0, 1) if cross else (0, 1, 2))
+        if fresh and rng.random() < 0.45:
+            n = rng.choice(fresh)
+        else:
+            n = rng.choice(list(reg) if cross else list(reg) + [3])
+        kids = sorted(reg.get(n, ()))
+        if cross:
+            c = rng.choice(kids) if kids else None
+        else:
+            c = rng.choice((0, 1, 2))
+        faults = (rng.choice((False, True, gw.CANCEL)),) if rng.random() < 0.08 else ()
+        if rng.random() < 0.07:
+            # a new node asks for an id: the handler registers a placeholder under the next free id
+            h.ops.append(("recv", f"255;{rng.choice((255, 255, 4))};3;{ack()};{id_request};", faults, gw.DEFAULT_TIME))
+            handed_out()
+            continue
         if r < 0.1 and cross:
             # across 1.x -> 2.x a re-presentation forgets the children, and a later reference to one would be an unknown
-            # child (outside the property's precondition): the node presents itself again AND then its children
+            # child (outside the property's precondition): the node presents itself (again) AND then its children
             h.ops.append(("recv", f"{n};255;0;0;17;2.0", (), gw.DEFAULT_TIME))
+            presented(n)
             for cc in (0, 1):
                 h.ops.append(("recv", f"{n};{cc};0;0;{rng.choice((6, 3, 18))};{rng.choice(('c', ''))}", (), gw.DEFAULT_TIME))
+                reg[n].add(cc)
             continue
         if r < 0.1:
             line = f"{n};255;0;0;17;2.0"
-        elif r < 0.2:
+            presented(n)
+        elif r < 0.2 or (cross and c is None and r < 0.5):
             # child presentations: types whose enum NAME differs between the versions (3, 18), table edges, no description
+            # (also in place of a set / req of a node that has no child yet)
+            c = rng.choice((0, 1, 2))
             line = f"{n};{c};0;{ack()};{rng.choice((6, 6, 3, 18, 0, 25))};{rng.choice(('d', 'd', '', 'x y'))}"
+            if n in reg:
+                reg[n].add(c)
         elif r < 0.4:
             line = f"{n};{c};1;{ack()};{rng.choice((0, 2))};{rng.randint(0, 9)}"
         elif r < 0.5:
@@ -2446,21 +2487,28 @@ def older_types_history(rng, v_old: str, cross: bool, avoid_hb: bool, length: in
         elif r < 0.8:
             t = rng.choice(internal)
             payload = {0: rng.choice(["50", "abc", "150"]), 22: rng.choice(["5", "x"]), 3: ""}.get(t, "1")
-            line = f"{rng.choice((n, 255)) if t == 3 else n};{rng.choice((255, 4)) if t == 3 else 255};3;{ack()};{t};{payload}"
+            sender = n
+            if cross and t != id_request and to["internal"][str(t)] not in C19_NODE_REPORTS and rng.random() < 0.25:
+                # requests to the controller, log messages ...: they name no registry entry, whoever sends them - the
+                # gateway itself (node 0), a node that is not registered
+                sender = rng.choice((0, 0, 9, 77))
+            line = f"{rng.choice((n, 255)) if t == 3 else sender};{rng.choice((255, 4)) if t == 3 else 255};3;{ack()};{t};{payload}"
+            if t == id_request:
+                handed_out()
         elif r < 0.86:
             line = f"{n};255;4;{ack()};{rng.choice([int(x) for x in to['stream']])};0"
         elif r < 0.9:
             # lines the codec must judge alike under every version: ill-formed ones, and internal / stream types on a
             # child id other than the system child (accepted for id request / response only)
-            t = rng.choice(internal)
+            t = rng.choice([x for x in internal if x != id_request] if cross else internal)
             line = rng.choice(["", "1;2", "bad", "1;255;1;0;0;x", f"{n};{rng.choice((0, 1, 7))};3;0;{t};x", f"0;0;3;0;{t};log",
                                f"{n};0;4;0;0;x", f"{n};255;{rng.choice((1, 2))};0;0;x", f"{n};256;3;0;{t};", f"{n};-1;3;0;{t};"])
         else:
+            if cross and c is None:
+                continue
             h.ops.append(("send", (n, c, 1, 0, rng.choice((0, 2)), str(rng.randint(0, 9))), rng.random() < 0.8, ()))
             continue
-        if cross and n not in known_nodes:
-            continue
-        h.ops.append(("recv", line, (rng.choice((False, True, gw.CANCEL)),) if rng.random() < 0.08 else (), gw.DEFAULT_TIME))
+        h.ops.append(("recv", line, faults, gw.DEFAULT_TIME))
     return h
 
 
@@ -2471,21 +2519,150 @@ def _c19_obs(o):
     return (o["out"], o["writes"], s["nodes"], s["ibuf"], s["sbuf"])
 
 
-def _c19_first_diff(ia, ib):
-    """First step (index into the observation lists) at which two runs of the same history differ, or None."""
+def _c19_is_cross(a: str, w: str) -> bool:
+    return a.split(".")[0] != w.split(".")[0]
+
+
+_C19_SCHEMAS: dict = {}
+_C19_DECODED: dict = {}
+
+
+def _c19_decode(version: str, line: str):
+    """The received line as the REAL codec decodes it under `version` (None: it is not a message)."""
+    from aiomysensors.model.message import MessageSchema
+    from aiomysensors.model.protocol import get_protocol
+    from marshmallow import ValidationError
+    key = (version, line)
+    if key in _C19_DECODED:
+        return _C19_DECODED[key]
+    schema = _C19_SCHEMAS.get(version)
+    if schema is None:
+        schema = _C19_SCHEMAS[version] = MessageSchema()
+        schema.set_protocol(get_protocol(version))
+    try:
+        m = schema.load(line)
+    except ValidationError:
+        m = None
+    if len(_C19_DECODED) < 200000:
+        _C19_DECODED[key] = m
+    return m
+
+
+def _c19_internal_no(version: str, name: str):
+    return next((int(t) for t, nm in proto_tables(version)["internal"].items() if nm == name), None)
+
+
+# internal message types whose content is kept on the registry entry of the node that sent them
+C19_NODE_REPORTS = ("I_BATTERY_LEVEL", "I_SKETCH_NAME", "I_SKETCH_VERSION", "I_HEARTBEAT_RESPONSE", "I_DISCOVER_RESPONSE",
+                    "I_PRE_SLEEP_NOTIFICATION", "I_POST_SLEEP_NOTIFICATION")
+
+
+def _c19_out_of_scope(a: str, op, registry: dict):
+    """Is this operation outside the cross-line (1.x -> 2.x) part of the property - 'as long as no unknown node or
+    child is referenced and no gateway-ready message occurs' - in the state whose REAL registry (`snapshot_nodes` of
+    `gateway.nodes`, taken before the operation) is `registry`?  Returns the reason, or None when it is inside.
+
+    Decided from what the message names and from registry membership only - never from the error a handler raised:
+      * a line the codec does not decode is no message and names nothing;
+      * a node presentation (system child) names no existing node: it creates one;
+      * a child presentation and a stream message name their sender node; a set / req message names its sender node
+        and its child;
+      * an internal message names its sender node when its type is a report that is kept on the node's registry entry
+        (`C19_NODE_REPORTS`: battery level, sketch name / version, heartbeat / discover response, sleep notifications);
+        requests to the controller (id, config, time ...), log messages and the like name no registry entry;
+      * a send call of a set / req names the node and the child it is addressed to; other send calls name the node.
+    The node, resp. the child, must be a key of the registry, resp. of that node's `children`."""
+    if op[0] == "recv":
+        m = _c19_decode(a, op[1])
+        if m is None:
+            return None
+        node, child, cmd, typ = m.node_id, m.child_id, int(m.command), m.message_type
+        if cmd == 3:
+            name = proto_tables(a)["internal"].get(str(typ))
+            if name == "I_GATEWAY_READY":
+                return "gateway-ready"
+            if name not in C19_NODE_REPORTS:
+                return None
+        if cmd == 0 and child == 255:
+            return None
+    elif op[0] == "send":
+        if op[1] is None:
+            return None
+        node, child, cmd = op[1][0], op[1][1], op[1][2]
+    else:
+        return None
+    if node not in registry:
+        return f"node {node} is not in the registry"
+    if cmd in (1, 2) and child not in registry[node]["children"]:
+        return f"child {child} of node {node} is not in the registry"
+    return None
+
+
+def _c19_scope_cut(a: str, w: str, ops, ia):
+    """(index of the first operation outside the property's domain for the pair (a, w), reason), or (None, None).
+    Same major line: every history over the older protocol's types is inside.  Across the lines: `_c19_out_of_scope`
+    on the real registry the older run showed before each operation."""
+    if not _c19_is_cross(a, w):
+        return None, None
+    for k, op in enumerate(ops):
+        why = _c19_out_of_scope(a, op, ia[k]["nodes"])
+        if why is not None:
+            return k, why
+    return None, None
+
+
+def _c19_first_diff(ia, ib, limit=None, view=None):
+    """First step (index into the observation lists) at which two runs of the same history differ, or None.
+    `limit`: only the observations before this index are compared."""
     for i, (oa, ob) in enumerate(zip(ia, ib)):
-        if _c19_obs(oa) != _c19_obs(ob):
+        if limit is not None and i >= limit:
+            return None
+        va, vb = _c19_obs(oa), _c19_obs(ob)
+        if view is not None:
+            va, vb = view(va), view(vb)
+        if va != vb:
             return i
     return None
 
 
+def _c19_judge(a: str, w: str, ops, ia, ib, view=None):
+    """The pair oracle on two runs (under `a` and `w`) of the same operations: (first differing step INSIDE the
+    property's domain or None, index of the first operation outside the domain or None, why it is outside).
+    Observation i + 1 belongs to operation i: an operation outside the domain, and everything after it, is not
+    judged; everything before it is."""
+    cut, why = _c19_scope_cut(a, w, ops, ia)
+    return _c19_first_diff(ia, ib, None if cut is None else cut + 1, view), cut, why
+
+
+def _c19_placeholder_steps(a: str, ops, ia, cut) -> int:
+    """Coverage figure: how many of the judged operations come from (or are addressed to) a node that the id-request
+    handler put into the registry - a key that appears in the real registry at a step whose line is an id request -
+    and that has not presented itself since."""
+    held: set = set()
+    count = 0
+    id_request = _c19_internal_no(a, "I_ID_REQUEST")
+    for k, op in enumerate(ops[:len(ops) if cut is None else cut]):
+        m = _c19_decode(a, op[1]) if op[0] == "recv" else None
+        if m is not None and int(m.command) == 3 and m.message_type == id_request:
+            held |= set(ia[k + 1]["nodes"]) - set(ia[k]["nodes"])
+            continue
+        if m is not None and int(m.command) == 0 and m.child_id == 255:
+            held.discard(m.node_id)
+            continue
+        node = m.node_id if m is not None else (op[1][0] if op[0] == "send" and op[1] is not None else None)
+        if node in held:
+            count += 1
+    return count
+
+
 def _c19_shrink(h: Hist, a: str, w: str) -> Hist:
     """Greedy one-pass shrink of a history on which versions `a` and `w` differ: drop every operation without which
-    the two runs still differ somewhere (re-executed on the implementation).  Presentations are never dropped: the
-    shrunk history must stay inside the property's domain (no unknown node or child is referenced)."""
+    the two runs still differ somewhere inside the property's domain (re-executed on the implementation and judged
+    by `_c19_judge`: dropping the operation that registered a node puts the later traffic of that node outside the
+    domain, so it stays).  Presentations are never dropped."""
     def differs(ops):
         ia, ib = gw.run_impl_many([Hist(a, h.metric, h.preload, ops), Hist(w, h.metric, h.preload, ops)])
-        return _c19_first_diff(ia, ib)
+        return _c19_judge(a, w, ops, ia, ib)[0]
 
     ops = list(h.ops)
     for k in range(len(ops) - 2, -1, -1):
@@ -2632,8 +2809,191 @@ def run_both_pieces(hists, corr: Corr, ctx, view: str, what: str, workers: int =
     return impl_all
 
 
-def _c19_type_grid(corr: Corr, ctx) -> None:
-    """Every (child type, value type) cell of the older protocol's tables, under every ordered pair of versions."""
+def _c19_forget_sleeping(obs):
+    """The stated exception (heartbeat response: 2.0/2.1 mark the node as sleeping, 2.2 does not): the observation
+    without the nodes' sleeping flags."""
+    out, writes, nodes, ibuf, sbuf = obs
+    return (out, writes, re.sub(r":([01]):([01]):\[", r":\1:[", nodes), ibuf, sbuf)
+
+
+def _c19_violation(corr: Corr, a: str, w: str, h: Hist, i: int, ia, ib, scenario=None, shrink=False, view=None) -> None:
+    """Report a step inside the property's domain at which the runs under `a` and `w` differ: the history up to that
+    step (shrunk on request), what both versions showed, and - across the lines - how the message's node stands in
+    the real registry."""
+    cut = Hist(a, h.metric, h.preload, h.ops[:i])
+    oa, ob = ia[i], ib[i]
+    if shrink:
+        small = _c19_shrink(cut, a, w)
+        ja, jb = gw.run_impl_many([small, Hist(w, small.metric, small.preload, small.ops)])
+        d = _c19_judge(a, w, small.ops, ja, jb, view)[0]
+        if d is not None and d == len(small.ops):
+            cut, oa, ob, ia = small, ja[d], jb[d], ja
+    va, vb = _c19_obs(oa), _c19_obs(ob)
+    if view is not None:
+        va, vb = view(va), view(vb)
+    case = {"older": a, "newer": w, "history": cut.to_json(),
+            "older_obs": [str(x)[:300] for x in va], "newer_obs": [str(x)[:300] for x in vb]}
+    if scenario:
+        case["scenario"] = scenario
+    if view is not None:
+        case["sleeping_flag_excepted"] = True
+    if _c19_is_cross(a, w) and cut.ops:
+        last, before = cut.ops[-1], ia[len(cut.ops) - 1]["nodes"]
+        case["registry_before_last_step"] = {str(k): sorted(v["children"]) for k, v in before.items()}
+        case["in_domain"] = ("every message before and at the last step names a node (and child) that is in the registry "
+                             "at that moment, or creates one; no gateway-ready" if _c19_out_of_scope(a, last, before) is None
+                             else "NOT in domain")
+    corr.violate("the same history is handled differently by a newer protocol version", case)
+
+
+def placeholder_histories(rng, per_line: int):
+    """The id-request handler puts a node into the registry before that node ever presented itself (a placeholder with
+    default values).  From then on the node IS in the registry, so whatever it sends is inside the property's domain
+    also across 1.x -> 2.x.  Histories: a registry that is empty / small / has a gap / holds a sleeping node; an id
+    request (system child or not, echo asked or not, the response's write possibly failing or cancelled); then the
+    node that was given the id sends BEFORE its presentation: sketch name, sketch version, battery level (valid or
+    not), child presentations, set and req on those children, every stream type, the other internal types of the
+    older protocol, send calls addressed to it - in 2.x also heartbeat and discover responses -; possibly a second id
+    request in between; then the node presents itself and its children, and reports again.
+    Yields (history without version, versions whose tables hold all its types, label)."""
+    vs = lib.VERSIONS
+    T0 = gw.DEFAULT_TIME
+    for a0 in ("1.4", "2.0"):
+        to = proto_tables(a0)
+        names = {nm: int(t) for t, nm in to["internal"].items()}
+        plain = [t for nm, t in names.items() if nm not in ("I_VERSION", "I_GATEWAY_READY", "I_ID_REQUEST", "I_HEARTBEAT_RESPONSE",
+                                                           "I_BATTERY_LEVEL", "I_SKETCH_NAME", "I_SKETCH_VERSION")]
+        streams = [int(t) for t in to["stream"]]
+        sends = a0 == "1.4"          # 2.0-types histories hold heartbeats: nothing may be held for a node (the exception)
+        for k in range(per_line):
+            h = Hist(None, rng.random() < 0.5)
+            reg: dict = {}
+            style = k % 4
+            if style == 1:
+                h.preload.append(("node", 1, 17, "2.0", "Sk", "1.0", 80, 0, False, False))
+                h.preload.append(("child", 1, 0, 0, 6, "c"))
+                reg[1] = {0}
+            elif style == 2:
+                for n in (2, rng.randint(5, 250)):
+                    h.preload.append(("node", n, 17, "1.4", "", "", 0, 0, rng.random() < 0.3, False))
+                    reg[n] = set()
+            elif style == 3:
+                h.preload.append(("node", 4, 18, "2.0", "", "", 0, 0, False, sends))
+                h.preload.append(("child", 4, 1, 1, 3, ""))
+                reg[4] = {1}
+
+            def ack() -> int:
+                return 1 if rng.random() < 0.25 else 0
+
+            def faults():
+                return (rng.choice((True, gw.CANCEL)),) if rng.random() < 0.06 else ()
+
+            def recv(line: str, f=()) -> None:
+                h.ops.append(("recv", line, f, T0))
+
+            def id_request() -> int:
+                recv(f"255;{rng.choice((255, 255, 255, 7))};3;{ack()};{names['I_ID_REQUEST']};", faults())
+                new = max(reg) + 1 if reg else 1
+                reg[new] = set()
+                return new
+
+            def report(n: int) -> None:
+                """One message from node n (or one send call addressed to it)."""
+                kind = rng.choice(("name", "name", "version", "battery", "battery", "child", "child", "set", "set", "req", "stream",
+                                   "internal", "send", "hb", "discover"))
+                kids = sorted(reg[n])
+                if kind in ("set", "req", "send") and not kids:
+                    kind = "child"
+                if kind == "name":
+                    recv(f"{n};255;3;{ack()};{names['I_SKETCH_NAME']};{rng.choice(('Door sensor', '', 'x y', 'Sk'))}", faults())
+                elif kind == "version":
+                    recv(f"{n};255;3;{ack()};{names['I_SKETCH_VERSION']};{rng.choice(('1.2', '', '2.0-beta'))}", faults())
+                elif kind == "battery":
+                    recv(f"{n};255;3;{ack()};{names['I_BATTERY_LEVEL']};{rng.choice(('87', '0', '100', 'abc', '150', '', '55.5'))}", faults())
+                elif kind == "child":
+                    c = rng.choice((0, 1, 3, 254))
+                    recv(f"{n};{c};0;{ack()};{rng.choice((0, 6, 3, 18, 25))};{rng.choice(('front door', '', 'd'))}", faults())
+                    reg[n].add(c)
+                elif kind == "set":
+                    recv(f"{n};{rng.choice(kids)};1;{ack()};{rng.choice((0, 2, 16))};{rng.choice(('1', '0', '21.5', ''))}", faults())
+                elif kind == "req":
+                    recv(f"{n};{rng.choice(kids)};2;{ack()};{rng.choice((0, 2, 16))};", faults())
+                elif kind == "stream":
+                    recv(f"{n};255;4;{ack()};{rng.choice(streams)};{rng.choice(('0', '', '0A00'))}", faults())
+                elif kind == "internal":
+                    recv(f"{n};255;3;{ack()};{rng.choice(plain)};{rng.choice(('1', '', 'x'))}", faults())
+                elif kind == "send":
+                    if sends:
+                        h.ops.append(("send", (n, rng.choice(kids), 1, ack(), rng.choice((0, 2)), str(rng.randint(0, 9))),
+                                      rng.random() < 0.8, ()))
+                elif kind == "hb":
+                    if "I_HEARTBEAT_RESPONSE" in names:
+                        recv(f"{n};255;3;{ack()};{names['I_HEARTBEAT_RESPONSE']};{rng.choice(('5', '0', 'x', ''))}", faults())
+                elif kind == "discover":
+                    if "I_DISCOVER_RESPONSE" in names:
+                        recv(f"{n};255;3;{ack()};{names['I_DISCOVER_RESPONSE']};{rng.choice(('0', '1'))}", faults())
+
+            for n in list(reg):
+                if rng.random() < 0.5:
+                    report(n)
+            p = id_request()
+            second = None
+            for _ in range(rng.randint(3, 8)):
+                if second is None and rng.random() < 0.12:
+                    second = id_request()
+                report(second if second is not None and rng.random() < 0.3 else p)
+            if rng.random() < 0.85:
+                recv(f"{p};255;0;{ack()};{rng.choice((17, 18))};{rng.choice(('2.0', '1.4.1', ''))}", faults())
+                reg[p] = set()
+                for _ in range(rng.randint(1, 4)):
+                    report(p)
+            yield h, tuple(vs[vs.index(a0):]), f"placeholder ({a0} types)"
+
+
+def _c19_placeholders(corr: Corr, ctx, run) -> None:
+    """Traffic of a node that holds an id but has not presented itself, under every version and every ordered pair.
+    `run(hists, with_model)` executes the runs (implementation, and model where asked) and returns the implementation's
+    traces."""
+    rng = lib.rng_for(ctx.seed, "c19-placeholder")
+    base = list(placeholder_histories(rng, 24 if ctx.tier == "quick" else 400))
+    hists, index, with_model = [], [], []
+    for k, (h, A, label) in enumerate(base):
+        index.append(len(hists))
+        hists += [Hist(v, h.metric, h.preload, h.ops) for v in A]
+        with_model += [ctx.tier != "quick" or j == 0 or j == 1 + k % (len(A) - 1) for j in range(len(A))]
+    corr.count("placeholder:runs", len(hists))
+    corr.count("placeholder:runs also compared with the model", sum(with_model))
+    impl = run(hists, with_model)
+    shrunk = 0
+    for (h, A, label), first in zip(base, index):
+        for x, a in enumerate(A):
+            for y in range(x + 1, len(A)):
+                w = A[y]
+                ia, ib = impl[first + x], impl[first + y]
+                # 2.0-types histories hold heartbeat responses: towards 2.2 the sleeping flag may differ (the exception)
+                view = _c19_forget_sleeping if w == "2.2" and a in ("2.0", "2.1") else None
+                i, cut, why = _c19_judge(a, w, h.ops, ia, ib, view)
+                if i is not None:
+                    _c19_violation(corr, a, w, h, i, ia, ib, label, shrink=shrunk < 3, view=view)
+                    shrunk += 1
+                judged = len(h.ops) if cut is None else cut
+                corr.case(("placeholder", a, w, first), True,
+                          {"older": a, "newer": w, "scenario": label, "ops": len(h.ops), "judged": judged} if first % 61 == 0 else None)
+                corr.count(f"placeholder:{a}->{w}:histories")
+                corr.count(f"placeholder:{a}->{w}:steps judged", judged)
+                if cut is not None:
+                    corr.count(f"placeholder:{a}->{w}:histories that leave the domain ({why.split(' ')[0]} ...)")
+    corr.notes.append("placeholder nodes: an id request registers a node before its presentation; the traffic of that node (sketch "
+                      "name / version, battery, child presentations, set / req, streams, internal types, send calls; heartbeat and "
+                      "discover responses in the 2.x histories) is run under every version from the oldest whose tables hold the "
+                      "types and judged for every ordered pair; across 1.x -> 2.x the domain (no unknown node or child) is "
+                      "decided per step from the real registry before the step, not from the error raised")
+
+
+def _c19_type_grid(corr: Corr, ctx, extra=None):
+    """Every (child type, value type) cell of the older protocol's tables, under every ordered pair of versions.
+    `extra` = (histories, with_model): further runs executed in the same batch (one round of parallel model drivers);
+    their implementation traces are returned."""
     rng = lib.rng_for(ctx.seed, "c19-grid")
     vs = lib.VERSIONS
     rounds = 1 if ctx.tier == "quick" else 6
@@ -2650,26 +3010,22 @@ def _c19_type_grid(corr: Corr, ctx) -> None:
     with_model += [True] * len(outside)
     corr.count("grid:runs", len(hists))
     corr.count("grid:runs also compared with the model", sum(with_model))
-    impl = run_both_pieces(hists + outside, corr, ctx, "full", "full view (type grid)", with_model=with_model)
+    more, more_model = extra if extra is not None else ([], [])
+    impl = run_both_pieces(hists + outside + more, corr, ctx, "full", "full view (type grid / placeholder nodes)",
+                           with_model=with_model + more_model)
+    more_impl = impl[len(hists) + len(outside):]
     shrunk = 0
     for (h, A, label), (first, run_under) in zip(base, index):
         cells = sum(1 for op in h.ops if op[0] == "recv" and op[1].split(";")[2] == "1")
         for a in A:
             for w in run_under[run_under.index(a) + 1:]:
                 ia, ib = impl[first + run_under.index(a)], impl[first + run_under.index(w)]
-                i = _c19_first_diff(ia, ib)
+                i, cut, _why = _c19_judge(a, w, h.ops, ia, ib)
                 if i is not None:
-                    cut = Hist(a, h.metric, h.preload, h.ops[:i])
-                    if shrunk < 3:
-                        shrunk += 1
-                        cut = _c19_shrink(cut, a, w)
-                        ja, jb = gw.run_impl_many([cut, Hist(w, cut.metric, cut.preload, cut.ops)])
-                        va, vb = _c19_obs(ja[-1]), _c19_obs(jb[-1])
-                    else:
-                        va, vb = _c19_obs(ia[i]), _c19_obs(ib[i])
-                    corr.violate("the same history is handled differently by a newer protocol version",
-                                 {"older": a, "newer": w, "scenario": "type grid: " + label, "history": cut.to_json(),
-                                  "older_obs": [str(x)[:300] for x in va], "newer_obs": [str(x)[:300] for x in vb]})
+                    _c19_violation(corr, a, w, h, i, ia, ib, "type grid: " + label, shrink=shrunk < 3)
+                    shrunk += 1
+                if cut is not None:
+                    corr.count(f"grid:{a}->{w}:histories that leave the domain")
                 corr.case(("grid", a, w, label, first), True,
                           {"older": a, "newer": w, "scenario": "type grid: " + label, "ops": len(h.ops)} if first % 211 == 0 else None)
                 corr.count(f"grid:{a}->{w}:histories")
@@ -2682,11 +3038,14 @@ def _c19_type_grid(corr: Corr, ctx) -> None:
                       "model (full view; quick tier: the run under the oldest version and one newer version per history, thorough "
                       "tier: every run); the histories with child / value types OUTSIDE a version's tables are outside the "
                       "property's statement and are compared with the model only, not judged by the pair oracle")
+    return more_impl
 
 
 def run_c19(ctx) -> Corr:
     corr = Corr("C19", "two real gateways fed the same history under every ordered pair of supported versions (same major line: "
-                "1.4/1.5, 2.0/2.1, 2.0/2.2, 2.1/2.2; across 1.x->2.x with known nodes only and no gateway-ready), histories "
+                "1.4/1.5, 2.0/2.1, 2.0/2.2, 2.1/2.2; across 1.x->2.x judged as long as every message names a node / child that "
+                "is in the REAL registry at that step - preloaded, presented, or registered as a placeholder by an id request - "
+                "and is not gateway-ready: the first operation outside that domain ends the judged part), histories "
                 "restricted to the older protocol's types (heartbeat response excluded when 2.2 is the newer side, and checked "
                 "separately as the stated exception); each run also compared with the Lean model (full view); oracle = "
                 "identical outcomes, registry, buffers and writes step by step. non-trivial = distinct (pair, history). "
@@ -2694,7 +3053,8 @@ def run_c19(ctx) -> Corr:
                 "send call of EVERY set/req type of that table with rotating payload kinds and ack flags (nodes freshly "
                 "presented, wanting a reboot, or asleep), and nodes of every presentation type; each such history is run under "
                 "every version from the oldest whose tables contain its types and judged by the same oracle for every ordered "
-                "pair (counted under grid:*)")
+                "pair (counted under grid:*). Plus placeholder nodes (placeholder:*): id request, then traffic of the node "
+                "that was given the id before its presentation, under all five versions")
     rng = lib.rng_for(ctx.seed, "c19")
     pairs = [("1.4", "1.5", False), ("2.0", "2.1", False), ("2.0", "2.2", False), ("2.1", "2.2", False),
              ("1.4", "2.0", True), ("1.5", "2.0", True), ("1.4", "2.2", True), ("1.5", "2.1", True), ("1.5", "2.2", True), ("1.4", "2.1", True)]
@@ -2706,21 +3066,34 @@ def run_c19(ctx) -> Corr:
             for v in (a, bver):
                 hists.append(Hist(v, base.metric, base.preload, base.ops))
             meta.append((a, bver, cross))
+        # codec level, systematically: every internal type of the older protocol on a child id other than the system
+        # child (accepted for id request / response only), from the gateway's own id and from a registered node -
+        # every version must judge these lines alike
+        sweep = Hist(None, True, [("node", 1, 17, "2.0", "", "", 0, 0, False, False)], [])
+        for t in sorted(int(x) for x in proto_tables(a)["internal"]):
+            if t != 2:
+                for sender, child in ((0, 0), (1, 0), (1, 7)):
+                    sweep.ops.append(("recv", f"{sender};{child};3;0;{t};x", (), gw.DEFAULT_TIME))
+        for v in (a, bver):
+            hists.append(Hist(v, sweep.metric, sweep.preload, sweep.ops))
+        meta.append((a, bver, cross))
     impl = run_both(hists, corr, ctx, "full", "full view")
+    shrunk = placeholder_steps = 0
     for j, (a, bver, cross) in enumerate(meta):
         ha, ia, ib = hists[2 * j], impl[2 * j], impl[2 * j + 1]
-        for i in range(len(ha.ops) + 1):
-            oa, ob = ia[i], ib[i]
-            sa, sb = split_state(oa["state"]), split_state(ob["state"])
-            va = (oa["out"], oa["writes"], sa["nodes"], sa["ibuf"], sa["sbuf"])
-            vb = (ob["out"], ob["writes"], sb["nodes"], sb["ibuf"], sb["sbuf"])
-            if va != vb:
-                corr.violate("the same history is handled differently by a newer protocol version",
-                             {"older": a, "newer": bver, "history": Hist(a, ha.metric, ha.preload, ha.ops[:i]).to_json(),
-                              "older_obs": [str(x)[:300] for x in va], "newer_obs": [str(x)[:300] for x in vb]})
-                break
+        i, cut, why = _c19_judge(a, bver, ha.ops, ia, ib)
+        if i is not None:
+            _c19_violation(corr, a, bver, ha, i, ia, ib, shrink=shrunk < 2)
+            shrunk += 1
+        if cross:
+            corr.count(f"pair:{a}->{bver}:steps judged", len(ha.ops) if cut is None else cut)
+            corr.count(f"pair:{a}->{bver}:steps generated", len(ha.ops))
+            if cut is not None:
+                corr.count(f"pair:{a}->{bver}:histories that leave the domain ({why.split(' ')[0]} ...)")
+            placeholder_steps += _c19_placeholder_steps(a, ha.ops, ia, cut)
         corr.case(("pair", a, bver, j), True, {"older": a, "newer": bver, "ops": len(ha.ops)} if j % 97 == 0 else None)
         corr.count(f"pair:{a}->{bver}")
+    corr.count("pair:1.x->2.x:judged steps of a node registered by an id request and not yet presented", placeholder_steps)
     # the stated exception, and nothing more than it: with heartbeat responses in the history (from known and
     # unknown nodes, valid and invalid payloads) 2.0/2.1 and 2.2 may differ in the sleeping flag only.  Nothing is
     # ever held for a node here (no send calls, nobody asleep at the start), so there is nothing to release and
@@ -2732,7 +3105,7 @@ def run_c19(ctx) -> Corr:
             pre = [p[:9] + (False,) if p[0] == "node" else p for p in base.preload]
             ops = [op for op in base.ops if op[0] == "recv"]
             for k in range(rng.randint(2, 6)):      # make sure the heartbeat responses are there
-                node = rng.choice((1, 2, 3, 200))
+                node = rng.choice((1, 2, 3, 3, 4, 200))    # 3, 4: unknown, or a placeholder once an id was handed out
                 ops.insert(rng.randint(0, len(ops)), ("recv", f"{node};255;3;0;22;{rng.choice(gw.HEARTBEAT_PAYLOADS + ['5', 'x', ''])}", (), gw.DEFAULT_TIME))
             for v in (a, "2.2"):
                 hb_hists.append(Hist(v, base.metric, pre, ops))
@@ -2748,7 +3121,8 @@ def run_c19(ctx) -> Corr:
             vb = (ob["out"], ob["writes"], sleeping_only(sb["nodes"]), sb["ibuf"], sb["sbuf"])
             if va != vb:
                 corr.violate("heartbeat responses: 2.2 differs from the older version in more than the sleeping flag",
-                             {"older": a, "newer": "2.2", "history": Hist(a, ha.metric, ha.preload, ha.ops[:i]).to_json(),
+                             {"older": a, "newer": "2.2", "sleeping_flag_excepted": True,
+                              "history": Hist(a, ha.metric, ha.preload, ha.ops[:i]).to_json(),
                               "older_obs": [str(x)[:300] for x in va], "newer_obs": [str(x)[:300] for x in vb]})
                 break
         corr.case(("hb", a, j), True, None)
@@ -2758,5 +3132,5 @@ def run_c19(ctx) -> Corr:
         o = gw.run_impl(h)[1]
         if o["nodes"][1]["sleeping"] != sleeps or o["nodes"][1]["hb"] != 9:
             corr.violate("heartbeat response: the one stated difference between 2.0/2.1 and 2.2 is not as stated", {"version": v})
-    _c19_type_grid(corr, ctx)
+    _c19_placeholders(corr, ctx, lambda hs, wm: _c19_type_grid(corr, ctx, extra=(hs, wm)))
     return corr
